@@ -13,7 +13,9 @@ import (
 	"verifharness/hx"
 )
 
-func ch(k uint64, i int) fw.Chunk { return fw.Chunk{Key: k, Off: int64(i) * 10, Size: 10, Mtime: int64(k)} }
+func ch(k uint64, i int) fw.Chunk {
+	return fw.Chunk{Key: k, Off: int64(i) * 10, Size: 10, Mtime: int64(k)}
+}
 
 func file(tag int, cs ...fw.Chunk) fw.Ent {
 	return fw.Ent{Perm: 0644, Uid: uint32(tag), Mtime: int64(tag), Crtime: int64(tag), Chunks: cs}
@@ -74,6 +76,7 @@ var witnesses = []witness{
 	}},
 	// the mount's own sequence is clean: link, write through a name, unlink both
 	{"ok-mount-links", nil, []fw.Op{
+		{Kind: fw.OpCreate, Path: "/d", E: fw.Ent{Dir: true, Perm: 0755, Uid: 9, Mtime: 9, Crtime: 9}},
 		{Kind: fw.OpCreate, Path: "/a", E: file(1, ch(1, 0), ch(2, 1))},
 		{Kind: fw.OpLink, Path: "/a", Path2: "/d/b", NewId: 1},
 		{Kind: fw.OpWrite, Path: "/d/b", Chunks: []fw.Chunk{ch(2, 1), ch(4, 0)}, Mtime: 5, Via: true},
@@ -88,6 +91,82 @@ var witnesses = []witness{
 	}},
 }
 
+// ---------- the bounded-exhaustive stream ----------
+// Every history  prelude ; x ; y  (then  prelude ; x ; y ; z) over the alphabet below.  An operation is a
+// function of the current state (it keeps / drops / wraps the chunks the name shows now); fresh chunk ids
+// come from the generator's counter, so a case is a pure function of its index.
+func keepPlus(g *fw.Gen, p string, via bool) fw.Op {
+	cur, _ := g.ViewAt(p)
+	cs := append([]fw.Chunk{}, cur.Chunks...)
+	cs = append(cs, g.FreshAfter(cs))
+	return fw.Op{Kind: fw.OpWrite, Path: p, Chunks: cs, Mtime: g.NextTag(), Via: via}
+}
+func dropAll(g *fw.Gen, p string, via bool) fw.Op {
+	return fw.Op{Kind: fw.OpWrite, Path: p, Chunks: []fw.Chunk{g.FreshAfter(nil)}, Mtime: g.NextTag(), Via: via}
+}
+
+// wrapAll: every data chunk reachable from the current list under ONE fresh manifest (the old manifests are dropped)
+func wrapAll(g *fw.Gen, p string, via bool) fw.Op {
+	cur, _ := g.ViewAt(p)
+	var data []fw.Chunk
+	for _, c := range cur.Chunks {
+		if c.Man {
+			data = append(data, g.W.MsProj[c.Key]...)
+		} else {
+			data = append(data, c)
+		}
+	}
+	var cs []fw.Chunk
+	if len(data) > 0 {
+		cs = append(cs, g.Wrap(data))
+	}
+	return fw.Op{Kind: fw.OpWrite, Path: p, Chunks: cs, Mtime: g.NextTag(), Via: via}
+}
+
+var alphabet = []func(g *fw.Gen) fw.Op{
+	func(g *fw.Gen) fw.Op {
+		c1 := g.FreshAfter(nil)
+		return fw.Op{Kind: fw.OpCreate, Path: "/a", E: file(int(g.NextTag()), c1, g.FreshAfter([]fw.Chunk{c1}))}
+	},
+	func(g *fw.Gen) fw.Op {
+		return fw.Op{Kind: fw.OpCreate, Path: "/b", E: file(int(g.NextTag()), g.FreshAfter(nil))}
+	},
+	func(g *fw.Gen) fw.Op { return keepPlus(g, "/a", true) },
+	func(g *fw.Gen) fw.Op { return dropAll(g, "/a", false) },
+	func(g *fw.Gen) fw.Op { return wrapAll(g, "/a", true) },
+	func(g *fw.Gen) fw.Op { return wrapAll(g, "/a", false) },
+	func(g *fw.Gen) fw.Op { return keepPlus(g, "/a", false) },
+	func(g *fw.Gen) fw.Op { return fw.Op{Kind: fw.OpLink, Path: "/a", Path2: "/b", NewId: g.FreshId()} },
+	func(g *fw.Gen) fw.Op { return fw.Op{Kind: fw.OpLink, Path: "/a", Path2: "/d/b", NewId: g.FreshId()} },
+	func(g *fw.Gen) fw.Op { return fw.Op{Kind: fw.OpLink, Path: "/d/a", Path2: "/d/c", NewId: g.FreshId()} },
+	func(g *fw.Gen) fw.Op { return fw.Op{Kind: fw.OpDelete, Path: "/a", Data: true} },
+	func(g *fw.Gen) fw.Op { return fw.Op{Kind: fw.OpDelete, Path: "/a"} },
+	func(g *fw.Gen) fw.Op { return fw.Op{Kind: fw.OpDelete, Path: "/d", Rec: true, Data: true} },
+	func(g *fw.Gen) fw.Op { return fw.Op{Kind: fw.OpRename, Path: "/a", Path2: "/c"} },
+	func(g *fw.Gen) fw.Op { return fw.Op{Kind: fw.OpRename, Path: "/b", Path2: "/a"} },
+	func(g *fw.Gen) fw.Op { return fw.Op{Kind: fw.OpRename, Path: "/d", Path2: "/e"} },
+	func(g *fw.Gen) fw.Op { return fw.Op{Kind: fw.OpUnlink, Path: "/a"} },
+	func(g *fw.Gen) fw.Op { return fw.Op{Kind: fw.OpUnlink, Path: "/b"} },
+	func(g *fw.Gen) fw.Op { return dropAll(g, "/b", true) },
+	func(g *fw.Gen) fw.Op { return keepPlus(g, "/d/b", true) },
+	func(g *fw.Gen) fw.Op {
+		return fw.Op{Kind: fw.OpAppend, Path: "/a", Chunks: []fw.Chunk{{Key: g.Key(), Size: 5, Mtime: g.Mt()}}}
+	},
+}
+
+// exhaustive: the letters of history number e (all of length 2 first, then all of length 3); nil beyond
+func exhaustive(e int) []int {
+	a := len(alphabet)
+	if e < a*a {
+		return []int{e / a, e % a}
+	}
+	e -= a * a
+	if e < a*a*a {
+		return []int{e / (a * a), (e / a) % a, e % a}
+	}
+	return nil
+}
+
 var paths = []string{"/a", "/b", "/c", "/d", "/e", "/d/a", "/d/b", "/d/c", "/e/a", "/e/b"}
 
 func main() {
@@ -95,7 +174,8 @@ func main() {
 	w := fw.NewWorld()
 	defer w.Close()
 	out.Rule = "case = history from the empty filer; after every op: error class, scheduled chunk ids (queue + BatchDelete), raw store/KV dump, FindEntry views, referenced ids. " +
-		"The first cases of shard 0 are the fixed witnesses of the known findings (k=0..4) and two clean sequences; the others are random histories of 3..12 ops over the paths " +
+		"The first cases of shard 0 are the fixed witnesses of the known findings (k=0..4) and two clean sequences; every third case belongs to the bounded-exhaustive stream: history number (shard*n+i)/3 of " +
+		"create /a, create /d/a followed by every 2-letter (then every 3-letter) word over 21 state-dependent operations on /a, /b, /c, /d, /d/a, /d/b, /d/c (upload, flush keeping/dropping/wrapping the chunks through CreateEntry and UpdateEntry, append, link x3, delete +-data, recursive delete, rename x3, unlink x2) - the quick tier (1600 cases) covers all 441 words of length 2, the thorough tier all 9261 of length 3; the others are random histories of 3..12 ops over the paths " +
 		"{/a,/b,/c,/d,/e,/d/a,/d/b,/d/c,/e/a,/e/b}: create 20%, update 10%, append 8%, delete 14% (data 70%, recursive 60%), rename 14%, link 12%, write 12%, unlink 10%; " +
 		"paths are picked among existing entries 45..92% of the time; chunk lists retain/drop chunks of the current entry, add 0..3 fresh chunks (25% covering a retained one), " +
 		"wrap chunks into a fresh manifest (20%), re-wrap or unwrap a dropped manifest; every 6th case breaks a client assumption in ~15% of its ops (shared chunk id, raw link id, " +
@@ -133,6 +213,14 @@ func main() {
 			}
 			for _, o := range wt.ops {
 				record(o)
+			}
+		} else if letters := exhaustive((shard*out.N + i) / 3); i%3 == 1 && letters != nil {
+			kind = "exhaustive"
+			g := fw.NewGen(w, r, paths)
+			g.Last = record(alphabet[0](g))
+			g.Last = record(fw.Op{Kind: fw.OpCreate, Path: "/d/a", E: file(int(g.NextTag()), g.FreshAfter(nil))})
+			for _, l := range letters {
+				g.Last = record(alphabet[l](g))
 			}
 		} else {
 			g := fw.NewGen(w, r, paths)
